@@ -10,7 +10,8 @@ import ast
 import sys
 from pathlib import Path
 
-SRC = Path("/repo/src/safeds_stubgen")
+import os
+SRC = Path(os.environ.get("VERIF_REPO", "/repo")) / "src" / "safeds_stubgen"
 
 
 class TranslatorError(Exception):
